@@ -204,12 +204,12 @@ type parserSwarm struct {
 
 func parserOnly(p func([]byte) (p2p.Addr, error)) multiswarm.DynSwarm { return parserSwarm{p} }
 
-func (parserSwarm) Tell(context.Context, p2p.Addr, p2p.IOVec) error                { return nil }
-func (parserSwarm) Receive(context.Context, func(p2p.Message[p2p.Addr])) error      { return nil }
-func (parserSwarm) LocalAddrs() []p2p.Addr                                          { return nil }
-func (parserSwarm) MTU() int                                                        { return 0 }
-func (parserSwarm) Close() error                                                    { return nil }
-func (s parserSwarm) ParseAddr(b []byte) (p2p.Addr, error)                          { return s.p(b) }
+func (parserSwarm) Tell(context.Context, p2p.Addr, p2p.IOVec) error            { return nil }
+func (parserSwarm) Receive(context.Context, func(p2p.Message[p2p.Addr])) error { return nil }
+func (parserSwarm) LocalAddrs() []p2p.Addr                                     { return nil }
+func (parserSwarm) MTU() int                                                   { return 0 }
+func (parserSwarm) Close() error                                               { return nil }
+func (s parserSwarm) ParseAddr(b []byte) (p2p.Addr, error)                     { return s.p(b) }
 
 func guard(site string, w any, f func()) {
 	defer func() {
